@@ -73,6 +73,12 @@ def run_sequence(ctx: Ctx, rng, nsteps, reqs, meta, exact_env=False, pandas_stat
             env_next = A.next_env(rng, env, shock)
             if rng.random() < 0.06:
                 env_next["isOpen"] = False
+            if rng.random() < 0.05 and (m._supplies or m._borrows):
+                # malformed bar: the price vector lacks a token that is held — every valuation must raise KeyError,
+                # on a cold cache and on whatever an interrupted fill left behind alike
+                held = [k.name for k in list(m._supplies) + list(m._borrows)]
+                drop = rng.choice(held)
+                env_next["price"] = {t: p for t, p in env_next["price"].items() if t != drop}
             op = {"kind": "newBar"}
         elif r < 0.42:
             v = rng.choice(A.VIEWS0 + A.VIEWS0 + A.VIEWS1)
@@ -161,7 +167,7 @@ def compare(ctx: Ctx, reqs, meta, outs):
 
 def run(ctx: Ctx):
     rng = ctx.rng
-    nseq = ctx.scale(150, 4000)
+    nseq = ctx.scale(150, 1500)
     reqs, meta = [], []
     for i in range(nseq):
         run_sequence(ctx, rng, rng.randint(10, 26 if not ctx.thorough else 60), reqs, meta, exact_env=(i % 4 == 3), pandas_status=(i % 8 == 5))
